@@ -18,6 +18,10 @@ pub enum IsoMode {
     /// `a` may have more of everything (used with a = edited output, b = unedited output:
     /// additions made through the edit API must leave everything else as it was)
     Embed,
+    /// `a` embeds in `b`: like RoundTrip for everything `a` has, `b` may hold additional entities,
+    /// exports and segments (used with a = the input, b = the output after additions through the
+    /// edit API; unlike Embed with swapped roles it keeps the direction of the nop / dead-code tolerance)
+    Extended,
 }
 
 #[derive(Clone, Debug, PartialEq, Eq)]
@@ -65,6 +69,8 @@ pub struct Maps {
     /// output *declared* element segments without an input counterpart (tolerated under gc: a
     /// pass may have to re-declare `ref.func` targets whose declaring segment it removed)
     pub added_declared_elems: Vec<u32>,
+    /// output entities without an input counterpart (mode Extended only)
+    pub added: Vec<(Space, u32)>,
     /// number of input operators that were skipped as nop / dead code
     pub elided_ops: usize,
     pub inserted_else: usize,
@@ -578,7 +584,7 @@ impl<'m> St<'m> {
         self.maps.bwd[sidx(s)]
             .iter()
             .enumerate()
-            .filter(|(i, x)| x.is_none() && !(s == Space::Elem && self.maps.added_declared_elems.contains(&(*i as u32))))
+            .filter(|(i, x)| x.is_none() && !(s == Space::Elem && self.maps.added_declared_elems.contains(&(*i as u32))) && !self.maps.added.contains(&(s, *i as u32)))
             .map(|(i, _)| i as u32)
             .collect()
     }
@@ -618,6 +624,11 @@ impl<'m> St<'m> {
                             return Ok(done);
                         }
                     }
+                }
+                if mode == IsoMode::Extended {
+                    let mut t = self.clone();
+                    t.maps.added.push((s, bj));
+                    return t.match_leftovers(mode, budget);
                 }
                 // diagnosis: if a plausible partner exists (same intrinsic marker, or the only
                 // candidate), report why *that* pairing fails instead of a generic message
@@ -727,7 +738,7 @@ pub fn iso(a: &WModule, b: &WModule, mode: IsoMode) -> Result<Maps, Vec<Mismatch
             }
         }
     } else {
-        if a.exports.len() != b.exports.len() {
+        if a.exports.len() != b.exports.len() && mode != IsoMode::Extended {
             errs.push(Mismatch {
                 sig: "export-count-changed".into(),
                 detail: format!("{} vs {}", a.exports.len(), b.exports.len()),
@@ -754,6 +765,20 @@ pub fn iso(a: &WModule, b: &WModule, mode: IsoMode) -> Result<Maps, Vec<Mismatch
             (None, None) => {}
             (Some(x), Some(y)) => tryp!(st.bind(Space::Func, x, y).map_err(|m| Mismatch { sig: format!("start:{}", m.sig), detail: m.detail })),
             (x, y) => errs.push(Mismatch { sig: "start-changed".into(), detail: format!("{:?} vs {:?}", x, y) }),
+        }
+    }
+    if mode == IsoMode::Extended {
+        // the input's imports keep their relative order; matched by (module, field, kind), first unused occurrence
+        let mut used = vec![false; b.imports.len()];
+        for x in a.imports.iter() {
+            let sx = kind_space(&x.kind);
+            match (0..b.imports.len()).find(|j| !used[*j] && b.imports[*j].module == x.module && b.imports[*j].name == x.name && kind_space(&b.imports[*j].kind) == sx) {
+                Some(j) => {
+                    used[j] = true;
+                    tryp!(st.bind(sx, x.index, b.imports[j].index).map_err(|m| Mismatch { sig: format!("import:{}", m.sig), detail: m.detail }));
+                }
+                None => errs.push(Mismatch { sig: "import-dropped".into(), detail: format!("{:?} has no counterpart", x) }),
+            }
         }
     }
     if mode == IsoMode::RoundTrip {
@@ -797,7 +822,7 @@ pub fn iso(a: &WModule, b: &WModule, mode: IsoMode) -> Result<Maps, Vec<Mismatch
         Err(m) => return Err(vec![m]),
     };
     let mut errs = vec![];
-    if mode == IsoMode::RoundTrip {
+    if mode == IsoMode::RoundTrip || mode == IsoMode::Extended {
         for s in SPACES {
             let ua = st.unmatched_a(s);
             if !ua.is_empty() {
